@@ -30,7 +30,7 @@ SLICES_QUICK = [
     ("64-bit class with controls", {"Lens": "{0, 65536}", "MaxMsgs": 1, "MaxFrags": 2, "MaxCtl": 1, "MaxFrames": 3}, 2, 2),
 ]
 SLICES_THOROUGH = [
-    ("5 length classes, 2 msgs x 2 frags, 1 control", {"Lens": "{0, 1, 125, 126, 65536}", "MaxMsgs": 2, "MaxFrags": 2, "MaxCtl": 1, "MaxFrames": 5}, 4, 6),
+    ("5 length classes, 2 msgs x 2 frags, 1 control", {"Lens": "{0, 1, 125, 126, 65536}", "MaxMsgs": 2, "MaxFrags": 2, "MaxCtl": 1, "MaxFrames": 5}, 12, 6),
     ("all 7 classes, 1 msg x 2 frags, 1 control", {"Lens": "{0, 1, 125, 126, 65535, 65536, 70000}", "MaxMsgs": 1, "MaxFrags": 2, "MaxCtl": 1, "MaxFrames": 3}, 1, 2),
     ("3 msgs x 3 frags, 3 classes", {"Lens": "{0, 1, 126}", "MaxMsgs": 3, "MaxFrags": 3, "MaxCtl": 0, "MaxFrames": 9}, 3, 4),
     ("3 fragments, controls at two gaps", {"Lens": "{1, 126}", "MaxMsgs": 1, "MaxFrags": 3, "MaxCtl": 2, "MaxFrames": 5}, 2, 4),
@@ -64,7 +64,7 @@ def expand_offsets(beh_in, beh_out, max_bytes, pairs_upto, limit):
                 continue
             seen.add(key)
             base = [it for it in h if it[0] != "C"]
-            cutsets = [[c] for c in range(1, total)]
+            cutsets = [[]] + [[c] for c in range(1, total)]     # one chunk; every single cut
             if total <= pairs_upto:
                 cutsets += [[a, b] for a in range(1, total) for b in range(a + 1, total)]
             cutsets.append(list(range(1, total)))       # byte by byte
@@ -76,13 +76,33 @@ def expand_offsets(beh_in, beh_out, max_bytes, pairs_upto, limit):
     return n
 
 
-def validate(ck, sw, name, beh, label, mode="", comp_pid=None):
+BATCH = 25000          # scenarios per replay/validation batch (bounds trace size and TLC memory)
+JVM = {"JAVA_TOOL_OPTIONS": "-Xmx3g"}
+
+
+def validate(ck, sw, name, beh, label, mode=""):
+    """Replay a behaviours file on the real code (in batches) and validate the recorded traces."""
+    with open(beh) as f:
+        lines = f.readlines()
+    allbads = []
+    for b0 in range(0, len(lines), BATCH):
+        bfile = beh if len(lines) <= BATCH else "%s.b%d" % (beh, b0 // BATCH)
+        if bfile != beh:
+            with open(bfile, "w") as f:
+                f.writelines(lines[b0:b0 + BATCH])
+        allbads += _validate_batch(ck, sw, "%s_%d" % (name, b0 // BATCH), bfile, label, mode)
+        if bfile != beh:
+            os.remove(bfile)
+    return allbads
+
+
+def _validate_batch(ck, sw, name, beh, label, mode):
     trace = os.path.join(ck.work, "trace_%s.ndjson" % name)
     args = ["wsread", "-in", beh, "-out", trace, "-seed", str(ck.seed)]
     if mode:
         args += ["-mode", mode]
     summ, _ = vlib.run_replay(args, timeout=1500)
-    bads, _ = vlib.validate_trace(sw, "WsReadMonTrace", "WsReadMonTrace.cfg", trace, timeout=1500)
+    bads, _ = vlib.validate_trace(sw, "WsReadMonTrace", "WsReadMonTrace.cfg", trace, timeout=1500, extra_env=JVM, parallel=8)
     ck.cov["evaluations"] += summ["scenarios"]
     ck.cov["distinct_nontrivial"] += summ["nontrivial"]
     ck.cov["traces_validated_against_impl"] += summ["scenarios"] - len({b[0] for b in bads})
@@ -122,7 +142,7 @@ def run_slices(ck, sw, slices, base, sim, nsim, cover_cfg="WsReadImpl_cover.cfg"
         k, (name, consts, div, workers) = arg
         c = dict(base); c.update(consts)
         cfg = vlib.cfg_with(sw, cover_cfg, c)
-        r = vlib.tlc(sw, "WsReadImpl", cfg, workers=workers, timeout=2400)
+        r = vlib.tlc(sw, "WsReadImpl", cfg, workers=workers, timeout=2400, env={"JAVA_TOOL_OPTIONS": "-Xmx6g"})
         if not r.ok:
             raise vlib.Inconclusive("WsReadImpl [%s]: %s\n%s" % (name, r.violated or r.error, r.tail()))
         ck.add_tlc("WsReadImpl exhaustive + cover: " + name, r, c)
@@ -142,7 +162,7 @@ def run_slices(ck, sw, slices, base, sim, nsim, cover_cfg="WsReadImpl_cover.cfg"
     def simulate(_):
         c = dict(base); c.update(sim)
         cfg = vlib.cfg_with(sw, sim_cfg, c)
-        r = vlib.tlc(sw, "WsReadImpl", cfg, workers=1, simulate=nsim, depth=c["MaxHist"] + 4, seed=ck.seed, timeout=1800)
+        r = vlib.tlc(sw, "WsReadImpl", cfg, workers=1, simulate=nsim, depth=c["MaxHist"] + 4, seed=ck.seed, timeout=1800, env=JVM)
         if r.violated or (r.error and "timeout" in r.error):
             raise vlib.Inconclusive("WsReadImpl simulation: %s\n%s" % (r.violated or r.error, r.tail()))
         ck.add_tlc("WsReadImpl random simulation", r, c, exhaustive=False)
@@ -168,9 +188,9 @@ def run(ck):
                       "streams; each scenario runs through 9 API runs (4 APIs x inline/deferred/would-block variants); "
                       "non-trivial = some segment boundary falls strictly inside a frame")
     if ck.tier == "quick":
-        run_slices(ck, sw, SLICES_QUICK, BASE, SIM, 500, pool=5)
+        run_slices(ck, sw, SLICES_QUICK, BASE, SIM, 500, offsets=(20, 0, 4000), pool=5)
     else:
-        run_slices(ck, sw, SLICES_THOROUGH, BASE, SIM, 40000, offsets=(48, 14, 400000), pool=4)
+        run_slices(ck, sw, SLICES_THOROUGH, BASE, SIM, 5000, offsets=(48, 14, 40000), pool=3)
     ck.cov["exhaustive"] = True
     ck.assumptions += [
         "bytes are abstracted to cells in the model (split classes); concrete offsets are chosen by the driver, every offset for short streams in the thorough tier",
